@@ -71,7 +71,7 @@ NON_PD3 = [((9, 10), (9, 10), (-9, 10)), ((4, 5), (4, 5), (-1, 2)), ((-7, 10), (
 
 # off-diagonal factors that add up to zero (in this order of positions the Cholesky factor is rational)
 CANCEL3 = [((4, 5), (-2, 3), (-2, 15)), ((4, 5), (-2, 15), (-2, 3)), ((-8, 17), (2, 3), (-10, 51)),
-           ((24, 25), (-8, 21), (-304, 525)), ((4, 5), (-8, 21), (-44, 105)), ((-4, 5), (2, 3), (2, 15))]
+           ((24, 25), (-8, 21), (-304, 525)), ((4, 5), (-8, 21), (-44, 105))]
 # the same with dyadic factors (exact cancellation in floating point; the factor is irrational: oracle only)
 CANCEL3_DYADIC = [((1, 2), (-1, 2), (0, 1)), ((1, 2), (-1, 4), (-1, 4)), ((-1, 2), (1, 4), (1, 4)), ((0, 1), (1, 4), (-1, 4)),
                   ((3, 4), (-3, 4), (0, 1)), ((-1, 4), (-1, 4), (1, 2))]
@@ -148,6 +148,11 @@ def gen_case(rng, seed):
     equalize(rng, sources)
     small = any(s["kind"] == "repeated" for s in sources)
     kind, corr_pos = gen_corr(rng, k)
+    if kind.startswith("pd"):
+        # with a rational, non-dyadic Cholesky factor the draws around 2^30 are rounded at 1e-7: no large offsets there
+        sources, _ = mc.gen_sources(rng, k, repeated_ok=True, positive_error=True, allow_offset=False)
+        equalize(rng, sources)
+        small = any(s["kind"] == "repeated" for s in sources)
     # a division is only used where the draws are dyadic (no correlation applied): with a rational, non-dyadic factor a
     # denominator that is exactly 0 in Q is 1e-17 in floating point, i.e. a finite outcome (rounding, not modelled)
     allow_div = (not small) and not kind.startswith("pd") and rng.random() < 0.5
@@ -227,9 +232,14 @@ def correspondence(ctx):
             cases_runs.append((c["case"], mc.run_case(c["case"])))
     seedbase = rng.getrandbits(48)
     n = ctx.n(400, 4000)
-    for i in range(n):
+    i = 0
+    while len(cases_runs) < n and i < 3 * n:
+        i += 1
         case = gen_case(rng, "c02-{}-{}".format(seedbase, i))
         run = mc.run_case(case)
+        if mc.ill_conditioned(case, run):
+            res.count("dropped:ill-conditioned")
+            continue
         cases_runs.append((case, run))
     for case, run in cases_runs:
         res.evaluations += 1
@@ -442,6 +452,9 @@ def check_samerow(case):
     if len(S) != len(want):
         return "{} samples retrieved, {} of the {} draws are defined".format(len(S), len(want), N)
     sc = max([abs(y) for y in want] + [Fraction(0)]) or Fraction(1)
+    E = mc.rounding_units(case)
+    if math.isfinite(E):
+        sc = max(sc, Fraction(E) * 10)      # ill-conditioned formulas: the slack follows the magnitudes inside the formula
     for a, b in zip(S, want):
         if not close(Fraction(a), b, scale=sc):
             alt = None
@@ -596,8 +609,13 @@ def check_statistical(case):
 
 def gen_stat_case(rng):
     k = rng.choice([1, 2, 3, 3])
+    def pd_(cp):
+        rho = {}
+        for i, j, num, den in cp:
+            rho[(i, j)] = rho[(j, i)] = Fraction(num, den)
+        return minors_pd(k, rho)
     kind, corr_pos = gen_corr(rng, k)
-    while kind == "not-pd":
+    while not pd_(corr_pos):
         kind, corr_pos = gen_corr(rng, k)
     for _ in range(30):
         defs = mc.gen_defs(rng, k, allow_div=False, depth=2, require_all=True)
